@@ -469,10 +469,33 @@ pub fn any_server_answering(mut s: Box<dyn RealServer>) -> AnyDec {
     }))
 }
 
+/// Set by the crash monitor (C07): the client adapters below then behave like the client's relay, whose upload pump goes on
+/// encoding application writes whatever the download pump has just been fed - after every decode call that yielded an item
+/// or an error, the next application write is encoded through the same codec. What the encoder returns is not judged.
+pub static ANSWER_AFTER_DECODE: std::sync::atomic::AtomicBool = std::sync::atomic::AtomicBool::new(false);
+
+fn answering() -> bool {
+    ANSWER_AFTER_DECODE.load(std::sync::atomic::Ordering::Relaxed)
+}
+
 pub fn any_client(mut c: Box<dyn RealClient>) -> AnyDec {
-    AnyDec(Box::new(move |b| Ok(c.decode(b)?.map(|d| vec![Ev::Bytes(d)]))))
+    AnyDec(Box::new(move |b| {
+        let r = c.decode(b);
+        if answering() && !matches!(r, Ok(None)) {
+            let mut dst = BytesMut::new();
+            let _ = c.encode(b"next write", &mut dst);
+        }
+        Ok(r?.map(|d| vec![Ev::Bytes(d)]))
+    }))
 }
 
 pub fn any_client_dgram(mut c: Box<dyn RealClientDgram>) -> AnyDec {
-    AnyDec(Box::new(move |b| Ok(c.decode(b)?.map(|(d, a)| vec![Ev::Dgram(d, a)]))))
+    AnyDec(Box::new(move |b| {
+        let r = c.decode(b);
+        if answering() && !matches!(r, Ok(None)) {
+            let mut dst = BytesMut::new();
+            let _ = c.encode(b"next datagram", &Address::Domain("next.example".into(), 53), &mut dst);
+        }
+        Ok(r?.map(|(d, a)| vec![Ev::Dgram(d, a)]))
+    }))
 }
